@@ -19,7 +19,7 @@ func init() {
 		ID:              "C16",
 		HangIsViolation: true,
 		Technique:       "exhaustive enumeration of tag texts (sequences of literal / placeholder segments incl. defaults, nesting, repetition) x configurations (values that themselves contain placeholders, incl. self- and mutually-referential ones) x tag kinds, each a real start; reference evaluator for acyclic cases, termination decided by a Configure.Get-call budget (no clock)",
-		Rule:            "tag = <=2 (thorough <=3) segments over {literal, ${a}, ${b}, ${x} absent, ${x:d}, ${a:d}, ${m:d} empty map, ${l:d} empty list, ${${k}} nested key, ${x:${a}} nested default, ${x:${x:e}}}; configuration a in {absent, v, ${b}, ${a}, p${b}q, ${a}x, 7, empty string} x b in {absent, w, ${a}, ${b}} x k in {a, b}; observed through a custom tag (substituted text seen by a recording processor), a value tag bound to a string field and a by-name wire tag; non-trivial = tag with >=2 placeholders, nesting, or a configured value containing a placeholder",
+		Rule:            "tag = <=2 (thorough <=3) segments over {literal, ${a}, ${b}, ${x} absent, ${x:d}, ${a:d}, ${m:d} empty map, ${l:d} empty list, ${${k}} nested key, ${x:${a}} nested default, ${x:${x:e}}}; configuration a in {absent, v, ${b}, ${a}, p${b}q, ${a}x, 7, empty string, ${c}-${a}, ${c}${b}, ${a${c}}} with c a plain value x b in {absent, w, ${a}, ${b}} x k in {a, b}; observed through a custom tag (substituted text seen by a recording processor), a value tag bound to a string field and a by-name wire tag; non-trivial = tag with >=2 placeholders, nesting, or a configured value containing a placeholder",
 		Assumptions: []string{
 			"values with unbalanced ${ fragments are outside the family; number-like defaults belong to C17",
 			"cyclic or self-growing references must end in an error or an empty value within 5000 Configure.Get calls per start",
@@ -177,7 +177,8 @@ func c16Gen(c *core.Ctx) func(yield func(c16Case) bool) {
 				}
 			}
 		}
-		aVals := []any{nil, "v", "${b}", "${a}", "p${b}q", "${a}x", 7, ""} // "" is a configured value, not an absent key
+		// "" is a configured value, not an absent key; ${c} always resolves to plain text
+		aVals := []any{nil, "v", "${b}", "${a}", "p${b}q", "${a}x", 7, "", "${c}-${a}", "${c}${b}", "${a${c}}"}
 		bVals := []any{nil, "w", "${a}", "${b}"}
 		for _, kind := range []string{"custom", "value", "wire"} {
 			for _, av := range aVals {
@@ -200,7 +201,7 @@ func c16Gen(c *core.Ctx) func(yield func(c16Case) bool) {
 
 func c16Run(c *core.Ctx) {
 	Cases(c, c16Gen(c), func(c *core.Ctx, cs c16Case) {
-		cfg := map[string]any{"k": cs.K, "m": map[string]any{}, "l": []any{}}
+		cfg := map[string]any{"k": cs.K, "m": map[string]any{}, "l": []any{}, "c": "z", "az": "${a}"}
 		norm := func(v any) any {
 			if f, ok := v.(float64); ok { // JSON round trip of a replay file
 				return int(f)
